@@ -375,10 +375,24 @@ def job_pending(j):
     return d
 
 
+def job_resched(j):
+    """play() / sched on a clock whose task is already pending, then a tempo change: the task wakes exactly at the beat
+    its LAST scheduling says, once (NRT scheduler; the scenario is C09's, on the TempoClock and SystemClock)"""
+    from . import c09
+    d = c09.job_resched(j)
+    for v in d['violations']:
+        v['data']['replay']['delegate'] = 'c09'
+        v['data']['key'] = 'c12:resched:' + v['data']['key']
+    return d
+
+
 def replay(rec):
     if rec.get('delegate') == 'c05':
         from . import c05
         return c05.replay(rec)
+    if rec.get('delegate') == 'c09':
+        from . import c09
+        return c09.replay(rec)
     import math
     from sc3.base import main as _m, clock as clk
     main = _m.main
@@ -593,6 +607,9 @@ def main(tier, seed):
     for r in run_jobs('vf.props.c12', 'job_pending', pend, 'nrt'):
         chk.add('pending_tasks', r)
     chk.require_notes('pending_tasks', ['nrt:tempo'])
+    for r in run_jobs('vf.props.c12', 'job_resched', [dict()], 'nrt'):
+        chk.add('rescheduled_tasks', r)
+    chk.require_notes('rescheduled_tasks', ['resched'])
     return chk.finish(explanation='each law of the property is a z3 validity query (non-linear real arithmetic with '
                                   'ToInt witnesses for congruences) over the terms computed by the real TempoClock '
                                   'methods from an arbitrary invariant-satisfying state')
